@@ -1,0 +1,51 @@
+package main
+
+import (
+	"bytes"
+	"testing"
+
+	"github.com/stretchr/testify/assert"
+)
+
+func Test_writeError(t *testing.T) {
+	tests := []struct {
+		name string
+		args []string
+		out  string
+	}{
+		{
+			name: "unknown command",
+			args: []string{"foo"},
+			out:  `{"code":400,"message":"unknown command \"foo\" for \"gobl\""}`,
+		},
+		{
+			name: "unknown flag",
+			args: []string{"build", "--foo"},
+			out:  `{"code":400,"message":"unknown flag: --foo"}`,
+		},
+		{
+			name: "missing input file",
+			args: []string{"build", "testdata/no-such-file"},
+			out:  `{"code":400,"message":"open testdata/no-such-file: no such file or directory"}`,
+		},
+		{
+			name: "missing key file",
+			args: []string{"verify", "-k", "testdata/no-such-key"},
+			out:  `{"code":400,"message":"open testdata/no-such-key: no such file or directory"}`,
+		},
+	}
+	for _, tt := range tests {
+		t.Run(tt.name, func(t *testing.T) {
+			cmd := root().cmd()
+			cmd.SetArgs(tt.args)
+			cmd.SetIn(bytes.NewReader(nil))
+			cmd.SetOut(new(bytes.Buffer))
+			err := cmd.Execute()
+			if assert.Error(t, err) {
+				buf := new(bytes.Buffer)
+				writeError(buf, err)
+				assert.JSONEq(t, tt.out, buf.String())
+			}
+		})
+	}
+}
